@@ -8,6 +8,8 @@ import Valida.Spec.Ser
 import Valida.AddSchema
 import Valida.Tree
 import Valida.Html
+import Valida.Repr
+import Valida.Report
 open Lean (Json)
 open Valida Valida.Codec ValidaGen
 
@@ -66,6 +68,16 @@ def encFD (fd : FD) (d : DataV) : Json :=
     ("keys", encVals (pickBy res d.keys)), ("failure_indices", encNats (failureIndices res)),
     ("pre_err", encBools fd.preErr), ("c_err", encBools fd.cErr), ("c_false", encBools fd.cFalse),
     ("reasons", .arr ((failureIndices res).map (fun i => Json.arr ((fd.reasonsAt i).map encReason).toArray)).toArray)]
+
+/-- marker a legitimate report cannot contain (a raw NUL is always escaped by `repr`) -/
+def reprMarker : String := String.ofList [Char.ofNat 0, '?']
+def rhoD (v : PyVal) : String := match Repr.pyRepr v with | .ok s => s | .error _ => reprMarker
+def kappaD (l : Leaf Arg) : String := match Repr.leafRepr l with | .ok s => s | .error _ => reprMarker
+def hasMarker (s : String) : Bool := s.toList.contains (Char.ofNat 0)
+def guardMarker (r : Except Exc String) : Except Exc String :=
+  match r with
+  | .ok s => if hasMarker s then .error .unmodelled else .ok s
+  | .error e => .error e
 
 def sortWithIdx (rules : List RuleM) : List (Nat × RuleM) :=
   (List.zip (List.range rules.length) rules).mergeSort (fun a b => ruleLe a.2 b.2)
@@ -279,6 +291,26 @@ def handle (j : Json) : P Json := do
         ("cast_data", encVal v.castData),
         ("is_valid", .bool v.isValid), ("num_failures", .num v.numFailures),
         ("num_rules_tested", .num v.numRulesTested)]) r)
+  | "repr" => do
+      let v ← decVal a[1]!
+      pure (encOutcome (fun (s : String) => Json.str s) (Repr.pyRepr v))
+  | "cond_repr" => do
+      let c ← decCond a[1]!
+      match c with
+      | .leaf l => pure (encOutcome (fun (s : String) => Json.str s) (Repr.leafRepr l))
+      | _ => throw "cond_repr: leaf expected"
+  | "report" => do
+      let rules ← (← arr a[1]!).toList.mapM decRule
+      let doc ← decVal a[2]!
+      let sorted := (sortWithIdx rules).map (·.2)
+      let r : Except Exc (String × List String) := do
+        let v ← validate sorted doc
+        let whole ← guardMarker (Report.report rhoD kappaD sorted v)
+        let texts ← Report.allTexts kappaD sorted v.tests
+        let each ← (List.zipWith (fun t x => guardMarker (.ok (Report.ruleReport rhoD t x))) v.tests texts).mapM id
+        pure (whole, each)
+      pure (encOutcome (fun (x : String × List String) => Json.mkObj [
+        ("report", .str x.1), ("rule_reports", .arr (x.2.map Json.str).toArray)]) r)
   | op => throw s!"unknown op {op}"
 
 partial def loop (hIn : IO.FS.Stream) (hOut : IO.FS.Stream) : IO Unit := do
